@@ -41,9 +41,13 @@ P_EPS = 1e-12
 
 
 class Tagged(Violation):
-    def __init__(self, props: Sequence[str], oracle: str, detail: str, site: Optional[dict] = None, from_invariant: bool = False):
+    def __init__(self, props: Sequence[str], oracle: str, detail: str, site: Optional[dict] = None, from_invariant: bool = False,
+                 expected=None):
         super().__init__(oracle, detail, site)
         self.props = list(props)
+        # (names, dims, rho): the joint state the call should have produced, when the step oracle knows it.
+        # A check for ANOTHER property carries it forward as the reference for the next step (see Machine.carry)
+        self.expected = expected
         # raised by the after-step invariants (the step's own oracle had passed): the physical
         # state is still as predicted, so a program may go on after such a verdict for another property
         self.from_invariant = from_invariant
@@ -245,15 +249,48 @@ class Machine:
         self.probe_remeasure = False
         self.skipped = 0
         self.sites: List[tuple] = []
+        # History reference. Every step is judged from the library's own state before the call, so a call
+        # that corrupts the state is reported once, under the property of that call. When the check of a
+        # different property meets such a failure, it puts the state the call SHOULD have produced here; the
+        # next step's pre-snapshot then takes its density matrix from it, so that this property's own oracle
+        # (Born distribution, partial trace, collapse, ...) is evaluated against the state the history
+        # determines. Never set on a tree where all step oracles pass.
+        self.carry = None
 
     # -- helpers -----------------------------------------------------------------------
     def snap(self) -> Snapshot:
         try:
-            return snapshot(self.w)
+            s = snapshot(self.w)
         except Malformed as m:
             if m.what == "too-big":
                 raise TooBig(m.reason)
             raise
+        if self.carry is not None:
+            c, self.carry = self.carry, None
+            s = self._apply_carry(s, c)
+        return s
+
+    def _apply_carry(self, s: Snapshot, c) -> Snapshot:
+        import dataclasses
+
+        names, dims, rho = c
+        if s.rho is None or sorted(names) != sorted(s.names) or not s.names:
+            return s
+        order = [list(names).index(n) for n in s.names]
+        rho, d = ref.permute(np.asarray(rho, complex), list(dims), order)
+        tgt = [int(x) for x in s.dims]
+        common = [max(int(a), b) for a, b in zip(d, tgt)]
+        rho = ref.pad(rho, list(d), common)
+        if common != tgt:
+            # the library holds fewer levels than the reference: usable only if the reference has nothing there
+            t = rho.reshape(common + common)
+            sl = tuple(slice(0, x) for x in tgt) * 2
+            cut = t[sl].reshape(int(np.prod(tgt)), int(np.prod(tgt)))
+            if abs(np.trace(rho) - np.trace(cut)) > 1e-12:
+                return s
+            rho = cut
+        self.labels.append("history-reference-used")
+        return dataclasses.replace(s, rho=np.array(rho, complex))
 
     def live(self, name) -> bool:
         s = self.w.obj[name]
@@ -364,6 +401,13 @@ class Machine:
     def step(self, st: dict):
         k = st["k"]
         fn = getattr(self, "do_" + k)
+        if k in ("invalid", "set_contraction") and self.carry is not None:
+            # "rejected calls change nothing" is about the state as it is; the history reference waits
+            hold, self.carry = self.carry, None
+            try:
+                return fn(st)
+            finally:
+                self.carry = hold
         out = fn(st)
         self.steps_done += 1
         return out
@@ -402,9 +446,17 @@ class Machine:
             site["clss"] = "/".join(sorted({w.block_cls.get(t, "label") for t in targets}))
         site["r5_trigger"] = r5_trigger(pre, targets, [t for t in targets if w.kind[t] == "fock"])
         tdims = [w.dim(t) if w.dim(t) > 0 else (int(w.obj[t].state) + 2 if isinstance(w.obj[t].state, int) else 2) for t in targets]
+        # the reference needs at least these dimensions (more if the library chooses larger ones): if that is
+        # already beyond what the harness reconstructs, the verdict would be "inconclusive" after the call -
+        # reach it before, without letting the library build a state of several GB
+        need = actions.reference_dims_for_op(op, pre.rho, pre.dims, [pre.names.index(t) for t in targets], pre.dims)
+        if int(np.prod([int(x) for x in need], dtype=object)) > actions.MAX_REF_DIM:
+            raise TooBig("reference dimension before the call")
         raised = None
         try:
-            self.run.call_op(op, entry, targets)
+            self.run.call_op(op, entry, targets, reuse=bool(st.get("reuse")))
+            if st.get("reuse"):
+                self.labels.append("operation-object-reused")
         except LibRaised as e:
             raised = e
         post = self.post_snapshot(props, site, "op")
@@ -440,11 +492,12 @@ class Machine:
             trg = float(np.real(np.trace(got)))
             what = "trace" if abs(trg - 1) > 1e-6 and abs(trg) > 1e-9 and ref.trace_distance(got / trg, want) <= tol else "state"
             raise Tagged(props, "differs", f"{op['type']} via {entry} on {targets} (storage {site['storage']}/{site['rep']}): distance {td:.3e} "
-                         f"from (OxI)rho(OxI)+ (trace of result {trg:.6f})", dict(site, what=what))
+                         f"from (OxI)rho(OxI)+ (trace of result {trg:.6f})", dict(site, what=what),
+                         expected=None if unnormalised(pre) else (list(pre.names), list(post_c), want))
         if "C11" in props:
             modes = [t for t in targets if w.kind[t] == "fock"]
             nmax = sum(post_c[pre.names.index(m)] for m in modes)
-            d0 = ref.number_distribution(ref.pad(pre.rho, pre.dims, post_c), post_c, [pre.names.index(m) for m in modes], nmax)
+            d0 = ref.number_distribution(ref.pad(unit(pre.rho) if unnormalised(pre) else pre.rho, pre.dims, post_c), post_c, [pre.names.index(m) for m in modes], nmax)
             d1 = ref.number_distribution(got, post_c, [pre.names.index(m) for m in modes], nmax)
             if np.max(np.abs(d0 - d1)) > 1e-8 + 2.0 * contraction_slack(post, want, pre.names, post_c):
                 raise Tagged(["C11"], "number-distribution", f"{op['type']} on {targets} changed the total photon number distribution by {np.max(np.abs(d0 - d1)):.3e}", site)
@@ -459,6 +512,9 @@ class Machine:
         if td > tol:
             raise Tagged(props, "changed-after-rejection", f"joint state moved by {td:.3e} although the call was rejected", dict(site, what="state"))
         probs = validity_problems(self.w, post) + bookkeeping_problems(self.w, post)
+        if unnormalised(pre):
+            # a non-unitary user operator had taken the state out of the unit-trace regime before the call
+            probs = [p_ for p_ in probs if p_.split(":")[0] not in ("trace", "norm")]
         if probs:
             raise Tagged(props, "changed-after-rejection", "object graph ill-formed after rejected call: " + probs[0], dict(site, what="graph"))
 
@@ -559,6 +615,8 @@ class Machine:
         if post.names != pre.names:
             raise Tagged(props, "subsystems-changed", f"{call} changed the set of live subsystems", site)
         a, b, _ = align(pre, post, pre.names)
+        if unnormalised(pre) and abs(np.trace(b)) > 1e-12:
+            a, b = unit(a), unit(b)
         td = ref.trace_distance(a, b)
         slack = 0.0
         if call in ("contract", "env_contract"):
@@ -571,7 +629,8 @@ class Machine:
                     if 1e-15 < deficit < 1e-5:
                         slack = max(slack, 2.0 * deficit)
         if td > 1e-9 + slack:
-            raise Tagged(props, "state-changed", f"{call} {({k: v for k, v in st.items() if k not in ('k',)})} moved the joint state by {td:.3e}", dict(site, what="state"))
+            raise Tagged(props, "state-changed", f"{call} {({k: v for k, v in st.items() if k not in ('k',)})} moved the joint state by {td:.3e}", dict(site, what="state"),
+                         expected=(list(pre.names), list(pre.dims), pre.rho))
         # representation rules for expand / contract (C08)
         if call in ("expand", "env_expand", "ce_expand"):
             for x in addressed:
@@ -638,7 +697,8 @@ class Machine:
         a, b, _ = align(pre, post, pre.names)
         td = ref.trace_distance(a, b)
         if td > 1e-9:
-            raise Tagged(["C02"], "state-changed", f"trace_out via {entry} of {targets} moved the joint state by {td:.3e}", dict(site, what="state"))
+            raise Tagged(["C02"], "state-changed", f"trace_out via {entry} of {targets} moved the joint state by {td:.3e}", dict(site, what="state"),
+                         expected=(list(pre.names), list(pre.dims), pre.rho))
         # interpret the return value as a state
         D = int(np.prod([pre.dims[i] for i in idx]))
         got = self.value_as_state(val, D, w.kind[targets[0]] if len(targets) == 1 else None)
@@ -731,7 +791,8 @@ class Machine:
         if td > TOL_EXACT + contraction_slack(post, wantp, pre.names, common):
             trg = float(np.real(np.trace(b)))
             raise Tagged(["C06"], "differs", f"apply_kraus via {entry} on {targets} ({len(ks)} operators, storage {site['storage']}/{site['reps']}): distance {td:.3e} from sum K rho K+ (trace {trg:.6f})",
-                         dict(site, what="trace" if abs(trg - 1) > 1e-6 else "state"))
+                         dict(site, what="trace" if abs(trg - 1) > 1e-6 else "state"),
+                         expected=None if unnormalised(pre) else (list(pre.names), list(common), wantp))
         # representation rule: a vector/label report is only acceptable for a pure result
         for t in targets:
             blk = post.block_of(t)
@@ -892,7 +953,8 @@ class Machine:
             if td > TOL_EXACT + contraction_slack(post, ref.pad(exp, ed, cd), post.names, cd):
                 trg = float(np.real(np.trace(post.rho)))
                 raise Tagged(["C05"], "collapse", f"after measuring {sorted(mset)} via {entry} (storage {site['storages']}/{site['reps']}, outcome {outcomes}) the joint state of {post.names} is {td:.3e} away from the projected state (trace {trg:.6f})",
-                             dict(site, what="trace" if abs(trg - 1) > 1e-6 else "state"))
+                             dict(site, what="trace" if abs(trg - 1) > 1e-6 else "state"),
+                             expected=None if unnormalised(pre) else (list(post.names), list(cd), ref.pad(exp, ed, cd)))
         for m in kept:
             blk = post.block_of(m)
             if len(blk.members) != 1:
@@ -1163,12 +1225,14 @@ def _do_resize(self, st):
         if beyond > 1e-9:
             raise Tagged(["C10", "C17"], "population-lost", f"resize({n}) via {entry} on {t} (storage {site['storage']}/{site['rep']}) returned True although {beyond:.3e} of the population lies at or above level {n}", dict(site, what="lost"))
         if moved > 1e-9:
-            raise Tagged(["C10"], "state-changed", f"successful resize({n}) moved the joint state by {moved:.3e}", dict(site, what="state"))
+            raise Tagged(["C10"], "state-changed", f"successful resize({n}) moved the joint state by {moved:.3e}", dict(site, what="state"),
+                         expected=(list(pre.names), list(pre.dims), pre.rho))
     elif ret is False:
         if d1 != d0:
             raise Tagged(["C10", "C17"], "failed-but-changed", f"resize({n}) returned False but the dimension went {d0} -> {d1}", dict(site, what="dims"))
         if moved > 1e-12:
-            raise Tagged(["C10", "C17"], "failed-but-changed", f"resize({n}) returned False but the joint state moved by {moved:.3e}", dict(site, what="state"))
+            raise Tagged(["C10", "C17"], "failed-but-changed", f"resize({n}) returned False but the joint state moved by {moved:.3e}", dict(site, what="state"),
+                         expected=(list(pre.names), list(pre.dims), pre.rho))
         if n > d0:
             raise Tagged(["C10"], "grow-refused", f"resize({n}) upward from {d0} returned False", dict(site, what="refused"))
     else:
@@ -1334,8 +1398,20 @@ def _do_invalid(self, st):
             fn = self._op_caller(Operation(FockOperationType.Annihilation), entry, targets)
     elif fault == "missing_param":
         typ = [PolarizationOperationType.RX, PolarizationOperationType.U3, FockOperationType.PhaseShift, FockOperationType.Displace,
-               CompositeOperationType.NonPolarizingBeamSplitter, CustomStateOperationType.Custom][st.get("mode", 0) % 6]
-        fn = lambda: Operation(typ)
+               CompositeOperationType.NonPolarizingBeamSplitter, CustomStateOperationType.Custom, None, None][st.get("mode", 0) % 8]
+        if typ is None:
+            # an Expression over several subsystems without its expression / context; the operand types named in
+            # the refused request differ from those of any operation the program built before
+            from photon_weave.state.custom_state import CustomState
+            from photon_weave.state.fock import Fock
+            from photon_weave.state.polarization import Polarization
+
+            tys = [(Fock, Polarization), (Polarization, Fock), (Fock, Fock, Polarization), (CustomState, Fock), (Polarization,), (Fock, CustomState, Fock)][rng_seed % 6]
+            kw = dict(state_types=tys) if st.get("mode", 0) % 8 == 6 else dict(state_types=tys, expr=("kron", "A", "B"))
+            site["construct"] = "expression"
+            fn = lambda: Operation(CompositeOperationType.Expression, **kw)
+        else:
+            fn = lambda: Operation(typ)
     elif fault == "use_destroyed":
         if not dead:
             raise Inapplicable("nothing destroyed")
